@@ -109,6 +109,22 @@ def judgeLone (inp obs : Json) (kind : String) : Except String Verdict := do
            why := if spec then "" else s!"UpdateContainers on a never-started stub: {result} ({getStrD obs "note"})",
            sig := if spec then "" else s!"C19:noservice:{result}",
            cover := cover, nontrivial := true }
+  else if kind == "starting-dial" then
+    -- Start() in progress, no runtime client yet (phase `connecting`): no service, at once
+    let modelOut := stubUpdate (clientOf .connecting (fun (_ : List A) => ((none : Option (List A)), (none : Option E)))) list
+    let spec := result == "noservice"
+    pure { agree := (modelOut == ([], some .noService)) == (result == "noservice"), spec := spec,
+           why := if spec then "" else s!"UpdateContainers on a stub whose Start() is still connecting: {result} ({getStrD obs "note"})",
+           sig := if spec then "" else s!"C19:noservice:starting:{result}",
+           cover := cover, nontrivial := true }
+  else if kind == "starting-mute" then
+    -- Start() in progress, client exists, the runtime end never answers (phase `registering`):
+    -- outside the property (the stub HAS a service; it is the peer that is silent). The model's
+    -- wrapper goes to the client; what the real code did is recorded.
+    let modelOut := stubUpdate (clientOf .registering (fun (_ : List A) => ((none : Option (List A)), some ((0, "closed") : E)))) list
+    let agree := (modelOut.2 != some .noService) == (result != "noservice")
+    pure { agree := agree, spec := true, excluded := true, sig := s!"mute-runtime:{result}",
+           why := if agree then "" else s!"UpdateContainers during registration with a silent runtime: {result}", cover := cover }
   else
     -- started-then-stopped stub: outside the property (it says nothing about a stopped stub);
     -- the model's wrapper has a runtime client whose call fails: an error, at once
@@ -127,7 +143,7 @@ def judge (j : Json) : Except String Verdict := do
     return { agree := false, spec := true, why := s!"harness worker crashed: {note}", cover := ["crashed"] }
   if status == "error" then
     return { agree := false, spec := true, why := s!"harness error: {note}", cover := ["error"] }
-  if kind == "unstarted" || kind == "stopped" then
+  if kind == "unstarted" || kind == "stopped" || kind == "starting-dial" || kind == "starting-mute" then
     return ← judgeLone inp obs kind
   -- decode
   let callsI ← (← arrOf inp "calls").mapM fun c => do
@@ -324,7 +340,7 @@ def judge (j : Json) : Except String Verdict := do
   if callsI.any (fun c => c.err.isNone && !c.failed.isEmpty) then cover := "failed:nonempty" :: cover
   if callsI.any (fun c => c.err.isSome && !c.failed.isEmpty) then cover := "failed:with-error" :: cover
   pure { agree := agreeWhy == "", spec := ok, why := if !ok then why else agreeWhy, sig := sig, cover := cover,
-         nontrivial := contended > 0,
+         nontrivial := contended > 0 || kind == "cfgupd",
          model := Json.mkObj [("calls", nU), ("invocations", fns.size), ("handlers", hs.size),
                               ("contended", contended), ("accepted", rej.isNone)] }
 
